@@ -18,8 +18,9 @@ import json, os, re, sys
 REPO = os.environ.get("ZK_REPO", "/repo")
 SRC = os.path.join(REPO, "zk-sdk/src")
 JS = os.path.join(REPO, "clients/js/src")
-OUT_LEAN = sys.argv[1] if len(sys.argv) > 1 else "/verif/lean/ZkElGamal/Generated/Tables.lean"
-OUT_JSON = sys.argv[2] if len(sys.argv) > 2 else "/verif/lean/ZkElGamal/Generated/tables.json"
+_HERE = os.path.dirname(os.path.dirname(os.path.abspath(__file__)))   # the verif directory this script lives in
+OUT_LEAN = sys.argv[1] if len(sys.argv) > 1 else os.path.join(_HERE, "lean/ZkElGamal/Generated/Tables.lean")
+OUT_JSON = sys.argv[2] if len(sys.argv) > 2 else os.path.join(_HERE, "lean/ZkElGamal/Generated/tables.json")
 
 
 def read(p):
